@@ -43,4 +43,16 @@ PROPS = {
             "real allocator failure inside Vec::reserve aborts and cannot be scripted",
         ],
     },
+    "C17": {
+        "rule": "hand-written documented examples + random configurations: 8 target spellings x subsets of 17 keys (shared, language-scoped for kotlin/js/nanobind/demo_gen, backend-specific, unknown) x three sources (config.toml with kebab or snake spelling and tables; --config k=v with bare or quoted text; #[diplomat::config] on struct/mod/impl items) x well-typed and (1/12) ill-typed values; distinct = distinct protocol lines; non-trivial = at least one source non-empty",
+        "trusted_base": [
+            KERNEL, HARNESS,
+            "key strings are parsed into (scope, name) by the model driver with String.splitOn; keys with two or more dots are not generated",
+            "modelled not verified: toml crate parsing, heck::AsSnakeCase restricted to lowercase/digit/_/- keys, syn parsing of the attribute; clap argument splitting (main.rs) is bypassed: the harness calls Config::read_file/read_cli_settings and the hook effective_config in main.rs's order",
+        ],
+        "assumptions": [
+            "config.toml does not contain the same key in both kebab and snake spelling (iteration order of toml::Table would decide)",
+            "values are strings without escapes, booleans or integers",
+        ],
+    },
 }
